@@ -323,14 +323,14 @@ func (in *Interp) visitInstr(fr *frame, instr ssa.Instruction) continuation {
 		x := fr.get(instr.X)
 		switch x := x.(type) {
 		case []value:
-			i := in.index(fr.get(instr.Index), len(x))
+			i := in.index(fr.get(instr.Index), len(x), instr.Index.Type())
 			fr.set(instr, &x[i])
 		case *value:
 			if x == nil {
 				in.targetPanicStr("runtime error: invalid memory address or nil pointer dereference")
 			}
 			a := (*x).(array)
-			i := in.index(fr.get(instr.Index), len(a))
+			i := in.index(fr.get(instr.Index), len(a), instr.Index.Type())
 			fr.set(instr, &a[i])
 		default:
 			panic(fmt.Sprintf("unexpected x type in IndexAddr: %T", x))
@@ -339,10 +339,10 @@ func (in *Interp) visitInstr(fr *frame, instr ssa.Instruction) continuation {
 		x := fr.get(instr.X)
 		switch x := x.(type) {
 		case array:
-			i := in.index(fr.get(instr.Index), len(x))
+			i := in.index(fr.get(instr.Index), len(x), instr.Index.Type())
 			fr.set(instr, copyVal(x[i]))
 		case Str:
-			i := in.index(fr.get(instr.Index), len(x.b))
+			i := in.index(fr.get(instr.Index), len(x.b), instr.Index.Type())
 			fr.set(instr, x.b[i])
 		default:
 			panic(fmt.Sprintf("unexpected x type in Index: %T", x))
@@ -375,10 +375,13 @@ func (in *Interp) visitInstr(fr *frame, instr ssa.Instruction) continuation {
 
 // index turns an index value into a concrete int in [0,n), forking over the
 // feasible values when symbolic, and raising Go's run-time panic when out of range.
-func (in *Interp) index(v value, n int) int {
+func (in *Interp) index(v value, n int, ty types.Type) int {
 	t := v.(*Term)
 	if t.isConst() {
 		i := sext64(t.cv(), t.w)
+		if !isSigned(ty) {
+			i = int64(t.cv())
+		}
 		if i < 0 || i >= int64(n) {
 			in.targetPanicStr(fmt.Sprintf("runtime error: index out of range [%d] with length %d", i, n))
 		}
@@ -386,7 +389,11 @@ func (in *Interp) index(v value, n int) int {
 	}
 	t64 := t
 	if t.w < 64 {
-		t64 = in.tc.Zext(t, 64) // index expressions of narrower unsigned type
+		if isSigned(ty) {
+			t64 = in.tc.Sext(t, 64)
+		} else {
+			t64 = in.tc.Zext(t, 64)
+		}
 	}
 	inRange := in.tc.bin(opBvULt, t64, in.tc.Const(64, uint64(n)))
 	if !in.decideBool(inRange, "index-range") {
